@@ -61,6 +61,19 @@ class Ctx:
         self.obligations = []
         self.stats = {}
         self.notes = []
+        self.errors = []        # AnalysisError texts of rules that gave up
+
+    def run(self, rule_fn, *args, **kwargs):
+        '''Runs one rule; a rule that no longer sees its anchors
+        (AnalysisError) is recorded and the remaining rules still run, so
+        that a restructured site does not hide a violation found by
+        another rule.'''
+        try:
+            return rule_fn(self, *args, **kwargs)
+        except AnalysisError as err:
+            self.errors.append(f'{getattr(rule_fn, "__name__", "rule")}: '
+                               f'{err}')
+            return None
 
     def ob(self, rule, site, construct, outcome, at=None, detail=None,
            nontrivial=True):
